@@ -67,6 +67,8 @@ type sortedFile struct {
 	next      *sortedFile
 	prev      *sortedFile
 	allocated int64
+	prevName  string
+	prevFixed bool
 }
 
 func (f *sortedFile) getNext() link {
@@ -354,7 +356,14 @@ func (q *Tagged) Pop() sts.Sendable {
 	offset, length := next.allocate(g.conf.ChunkSize)
 	prevName := ""
 	if next.group.conf.Order != sts.OrderNone {
-		prevName = next.getPrevName()
+		if !next.prevFixed {
+			// Every chunk of a file has to name the same predecessor: files
+			// (re)queued in front of a half-emitted file must not take the
+			// place of the one it was told to wait for with its first chunk
+			next.prevName = next.getPrevName()
+			next.prevFixed = true
+		}
+		prevName = next.prevName
 	}
 	chunk := &sendable{
 		Hashed: next.orig,
